@@ -1,12 +1,12 @@
 package props
 
 import (
-	"sync/atomic"
 	"fmt"
 	"math/rand"
 	"os"
 	"sort"
 	"strings"
+	"sync/atomic"
 	"testing"
 	"testing/synctest"
 	"time"
@@ -61,15 +61,15 @@ type c02Rep struct {
 	// a running incarnation of this member was advertised on some replica's left list
 	// with a status time >= its current join time (the receiver fabricates leave = time+1)
 	leftListAfterJoin bool
-	prevLeaveMax  uint64 // highest LTime of any leave/force-leave about this member issued before its current incarnation joined
+	prevLeaveMax      uint64 // highest LTime of any leave/force-leave about this member issued before its current incarnation joined
 	// ledger: per member this replica does NOT list, the newest intent it has been handed
 	// about that member since it started (what must decide the member's status when the
 	// failure detector reports it)
 	ledger map[string]*c02Best
 	// highest leave time any push/pull receiver fabricated for this member (left-list entry: status time + 1)
 	// so far, and the value of that maximum when the member's current incarnation started
-	fabLeaveMax     uint64
-	fabBeforeJoin   uint64
+	fabLeaveMax   uint64
+	fabBeforeJoin uint64
 }
 
 // c02Best is the newest intent a replica received about a member it does not list.
@@ -95,17 +95,17 @@ type c02Info struct {
 }
 
 type c02World struct {
-	t     *testing.T
-	rng   *rand.Rand
-	net   *simnet.Net
-	reps  []*c02Rep
-	pool  [][]byte
+	t      *testing.T
+	rng    *rand.Rand
+	net    *simnet.Net
+	reps   []*c02Rep
+	pool   [][]byte
 	inPool map[string]bool
-	trk   map[*cluster.Node]*qTracker
-	viols [][2]string
-	stats map[string]int
-	log   strings.Builder
-	conc  bool
+	trk    map[*cluster.Node]*qTracker
+	viols  [][2]string
+	stats  map[string]int
+	log    strings.Builder
+	conc   bool
 }
 
 func (w *c02World) violate(key, msg string) {
